@@ -296,6 +296,107 @@ Proof.
       lia.
 Qed.
 
+(* ---------- one signingDoneCheck, many attempts ---------- *)
+Lemma do_msgs_params : forall h d, d_params (do_msgs d h) = d_params d.
+Proof.
+  unfold do_msgs. induction h as [|m t IH]; intros d; [reflexivity|].
+  cbn [fold_left]. rewrite IH. reflexivity.
+Qed.
+
+Lemma do_msgs_store : forall h d,
+    d_store (do_msgs d h) = fold_left (accept (d_params d)) h (d_store d).
+Proof.
+  unfold do_msgs. induction h as [|m t IH]; intros d; [reflexivity|].
+  cbn [fold_left]. rewrite IH. reflexivity.
+Qed.
+
+Lemma do_msgs_app : forall d h1 h2, do_msgs d (h1 ++ h2) = do_msgs (do_msgs d h1) h2.
+Proof. intros d h1 h2. unfold do_msgs. apply fold_left_app. Qed.
+
+(* listen() starts every attempt from an empty doneSigners whatever the object held before *)
+Lemma listen_fresh : forall p d h, d_store (do_msgs (do_listen p d) h) = listen p h.
+Proof. intros p d h. rewrite do_msgs_store. reflexivity. Qed.
+
+(* At every point of every attempt of every history on one object, from any initial state:
+   doneSigners is what a fresh object would hold after the messages of THIS attempt alone. *)
+Theorem no_state_across_attempts : forall d earlier p h,
+    d_store (do_msgs (do_listen p (run_attempts d earlier)) h) = listen p h.
+Proof. intros d earlier p h. apply listen_fresh. Qed.
+
+(* the stores at the end of the attempts of a history = map of the single-attempt function *)
+Theorem history_is_map : forall l d,
+    stores_of d l = map (fun ph => listen (fst ph) (snd ph)) l.
+Proof.
+  induction l as [|[p h] t IH]; intros d; [reflexivity|].
+  cbn [stores_of map fst snd]. rewrite listen_fresh, IH. reflexivity.
+Qed.
+
+Lemma existsb_ext_in : forall (A : Type) (f g : A -> bool) l,
+    (forall x, f x = g x) -> existsb f l = existsb g l.
+Proof. intros A f g l H. induction l as [|x t IH]; [reflexivity|]. cbn. rewrite H, IH. reflexivity. Qed.
+
+Lemma agree_with_ext : forall a st st',
+    (forall pre, st pre = st' pre) -> agree_with a st = agree_with a st'.
+Proof.
+  intros a st st' H. unfold agree_with. rewrite !H.
+  destruct (c_out a); try reflexivity; f_equal;
+    apply existsb_ext_in; intros pre; rewrite H; reflexivity.
+Qed.
+
+(* the judge's comparison on the object model = the single-attempt comparison of every attempt *)
+Theorem agree_from_is_map : forall l d, agree_from d l = forallb agree1 l.
+Proof.
+  induction l as [|a t IH]; intros d; [reflexivity|].
+  cbn [agree_from forallb]. rewrite IH. f_equal.
+  unfold agree1. apply agree_with_ext. intros pre.
+  rewrite <- do_msgs_app. apply listen_fresh.
+Qed.
+
+(* the property for histories: whatever happened in earlier attempts on the same object, a
+   result of this attempt is backed by this attempt's included members confirming among the
+   messages of THIS attempt *)
+Theorem history_done_only_when_all_confirmed : forall d earlier p h order s e,
+    NoDup (p_members p) ->
+    Permutation (d_store (do_msgs (do_listen p (run_attempts d earlier)) h)) order ->
+    tick p order = Done s e ->
+    (forall x, In x (map fst order) <-> In x (p_members p)) /\
+    (forall mem, In mem (p_members p) ->
+                 exists c, In c h /\ confirms p s mem c = true /\ m_end c <= e) /\
+    ((p_members p = [] /\ s = None /\ e = 0) \/
+     (exists mem c, In mem (p_members p) /\ In c h /\ confirms p s mem c = true /\ m_end c = e)).
+Proof.
+  intros d earlier p h order s e Hnd Hperm Ht. rewrite no_state_across_attempts in Hperm.
+  apply done_only_when_all_confirmed; assumption.
+Qed.
+
+Theorem history_model_passes_spec : forall d earlier p processed rest order,
+    NoDup (p_members p) ->
+    Permutation (d_store (do_msgs (do_listen p (run_attempts d earlier)) processed)) order ->
+    out_ok p (processed ++ rest) (tick p order) = true.
+Proof.
+  intros d earlier p processed rest order Hnd Hperm. rewrite no_state_across_attempts in Hperm.
+  apply model_passes_spec; assumption.
+Qed.
+
+(* the executable property of a whole case, decoded *)
+Theorem spec_ok_sound : forall c,
+    spec_ok c = true ->
+    forall a, In a (c_attempts c) ->
+      c_out a <> Panic /\
+      forall s e, c_out a = Done s e ->
+        let p := c_params a in
+        let h := c_phase1 a ++ c_phase2 a in
+        (forall mem, In mem (p_members p) ->
+                     exists m, In m h /\ confirms p s mem m = true /\ m_end m <= e) /\
+        ((p_members p = [] /\ s = None /\ e = 0) \/
+         (exists mem m, In mem (p_members p) /\ In m h /\ confirms p s mem m = true /\ m_end m = e)).
+Proof.
+  intros c H a Hin. unfold spec_ok in H. rewrite forallb_forall in H. specialize (H a Hin).
+  unfold spec_ok1 in H. split.
+  - intros E. rewrite E in H. discriminate.
+  - intros s e E. rewrite E in H. cbn [out_ok] in H. apply result_ok_sound. exact H.
+Qed.
+
 (* the hypotheses are satisfiable: members 1,2,3 of a 5-seat group confirm, member 4 (excluded,
    valid membership) does not count; and without member 3 the tick says NotYet *)
 Definition ex_p : params :=
@@ -307,3 +408,20 @@ Example excluded_member_does_not_count :
   tick ex_p (listen ex_p [ex_m 1 1 501; ex_m 2 1 502; ex_m 4 3 504]) = NotYet /\
   tick ex_p (listen ex_p [ex_m 4 3 504; ex_m 1 1 501; ex_m 2 1 502; ex_m 3 2 503]) = Done (Some 1) 503.
 Proof. vm_compute. split; reflexivity. Qed.
+
+(* a two-attempt history on one object: attempt 2 with members {1,2,3} collects 1 and 2 only;
+   attempt 3 with members {1,2,5} starts empty: with no message it is NotYet, the stale
+   confirmations of attempt 2 delivered late are rejected, and its own confirmations complete it *)
+Definition ex_p3 : params :=
+  {| p_ops := [1; 1; 2; 3; 3]; p_message := 1; p_attempt := 3; p_timeout := 2000; p_members := [1; 2; 5] |}.
+Definition ex_m3 (sender author e : N) : dmsg :=
+  {| m_done := true; m_sender := sender; m_author := author; m_message := 1; m_attempt := 3;
+     m_end := e; m_sig := Some 2 |}.
+Example second_attempt_starts_empty :
+  let d1 := do_msgs (do_listen ex_p new_sdc) [ex_m 1 1 501; ex_m 2 1 502] in
+  keys (d_store d1) = [1; 2] /\
+  tick ex_p3 (d_store (do_listen ex_p3 d1)) = NotYet /\
+  tick ex_p3 (d_store (do_msgs (do_listen ex_p3 d1) [ex_m 1 1 501; ex_m 2 1 502; ex_m 5 3 505])) = NotYet /\
+  tick ex_p3 (d_store (do_msgs (do_listen ex_p3 d1) [ex_m 1 1 501; ex_m3 1 1 1501; ex_m3 2 1 1502; ex_m3 5 3 1505]))
+  = Done (Some 2) 1505.
+Proof. vm_compute. repeat split; reflexivity. Qed.
